@@ -10,7 +10,8 @@ LEVEL = 'other'
 TECHNIQUE = ('format-template inventory of uigen::binding over typed HIR (which Rust formatting trait spells which C++ token), '
              'abstract evaluation of the operator admissibility tables intersected with a C++ validity oracle, facility/include '
              'sibling cross-check, name provenance (every emitted function name = fixed prefix + one UniqueNameGenerator result, '
-             'prefixes prefix-free), counter/array-size agreement and unfiltered per-binding emitter loops')
+             'prefixes prefix-free), counter/array-size agreement and unfiltered per-binding emitter loops, assignability table intersected with '
+             'the C++ implicit-conversion rules')
 LEVEL_TEXT = ('Whether the header compiles is not decided (no C++ front end in this family). Decided are the structural clauses of the '
               'statement: string/float constants never reach the header in Rust spelling; every admitted operator x operand-type '
               'combination is printed as a valid C++ expression; every std/Qt facility printed for a builtin has its include inserted '
